@@ -76,7 +76,9 @@ const E: usize = 100;
 /// 100 symbols in 10 blocks of 10
 const OBJ_LEN: u64 = 10_000;
 const OBJ_TIMEOUT: u64 = 10;
-const SESS_TIMEOUT: u64 = 30;
+/// longer than the object time-out, shorter than three half ticks: an idle session must be released by
+/// the third of a series of cleanups none of which alone spans the time-out
+const SESS_TIMEOUT: u64 = 14;
 
 pub struct Rx {
     /// virtual time (s) of the last packet of every object touched: (session, toi) -> seconds
@@ -88,6 +90,20 @@ pub struct Rx {
     pub esi: [u32; 256],
     pub now: SystemTime,
     pub fresh: u32,
+    /// sessions currently open according to the listener events (opens - closes)
+    pub open_sessions: Rc<std::cell::Cell<i64>>,
+    /// virtual time (s) of the last packet pushed to each of the three sessions
+    pub last_sess_pkt: [Option<u64>; 3],
+}
+
+struct SessCount(Rc<std::cell::Cell<i64>>);
+impl flute::receiver::MultiReceiverListener for SessCount {
+    fn on_session_open(&self, _e: &flute::receiver::ReceiverEndpoint) {
+        self.0.set(self.0.get() + 1);
+    }
+    fn on_session_closed(&self, _e: &flute::receiver::ReceiverEndpoint) {
+        self.0.set(self.0.get() - 1);
+    }
 }
 
 fn obj_pkt(tsi: u64, toi: u128, fti: bool, sbn: u32, esi: u32) -> Vec<u8> {
@@ -130,7 +146,10 @@ impl Rx {
             object_receive_once: true,
             enable_fdt_expiration_check: true,
         };
-        Rx { last_pkt: Default::default(), clock_s: 0, sessions: [false; 3], rx: MultiReceiver::new(Rc::new(NullBuilder), Some(cfg), false), esi: [0; 256], now: t0(), fresh: 100 }
+        let open_sessions = Rc::new(std::cell::Cell::new(0i64));
+        let mut rx = MultiReceiver::new(Rc::new(NullBuilder), Some(cfg), false);
+        rx.add_listener(SessCount(open_sessions.clone()));
+        Rx { last_pkt: Default::default(), clock_s: 0, sessions: [false; 3], rx, esi: [0; 256], now: t0(), fresh: 100, open_sessions, last_sess_pkt: [None; 3] }
     }
     pub fn nb_sessions(&self) -> usize {
         self.sessions.iter().filter(|s| **s).count().max(1)
@@ -142,6 +161,12 @@ impl Rx {
             Ev::OtherEndpoint => self.sessions[2] = true,
             Ev::TickObj | Ev::TickSess | Ev::HalfTick => {}
             _ => self.sessions[0] = true,
+        }
+        match ev {
+            Ev::OtherTsi => self.last_sess_pkt[1] = Some(self.clock_s),
+            Ev::OtherEndpoint => self.last_sess_pkt[2] = Some(self.clock_s),
+            Ev::TickObj | Ev::TickSess | Ev::HalfTick => {}
+            _ => self.last_sess_pkt[0] = Some(self.clock_s),
         }
         match ev {
             Ev::ObjNoFti(t) | Ev::ObjFti(t) => {
@@ -258,6 +283,14 @@ pub fn run_seq(c: &Cfg, seq: &[Ev], repeat: usize) -> (Option<(String, String)>,
                 if matches!(ev, Ev::TickObj | Ev::TickSess | Ev::HalfTick) {
                     // a cleanup has just run: only objects that received a packet within the object
                     // time-out may still be in reception
+                    // ... and only sessions that received a packet within the session time-out may still be allocated
+                    let live_sessions = rx.last_sess_pkt.iter().flatten().filter(|t| rx.clock_s - **t <= SESS_TIMEOUT).count() as i64;
+                    if rx.open_sessions.get() > live_sessions {
+                        return (
+                            Some(("C17/idle-session-survives-cleanup".into(), format!("after {:?} (repetition {}) {} session(s) are open (listener events) but only {} received a packet within the {} s session time-out; sequence {:?}", ev, rep, rx.open_sessions.get(), live_sessions, SESS_TIMEOUT, seq))),
+                            peak,
+                        );
+                    }
                     let fresh_enough = rx.last_pkt.values().filter(|t| rx.clock_s - **t <= OBJ_TIMEOUT).count();
                     let nobj = rx.rx.nb_objects();
                     if nobj > fresh_enough {
